@@ -262,17 +262,46 @@ namespace
       return ok;
     }
 
+    /// Mesh parts of the base node.  extract_patch reuses ONE PatchMeshPartSplitter for all parts in alphabetical name
+    /// order, so the list alternates "rich" parts (cells+closure, boundary, facets with topology) with "poor" parts that
+    /// have empty target sets in some dimensions (vertex-only pins, edge-only parts); the name prefix is rotated with the
+    /// variant so that every kind comes first and last.
     static void attach_base_parts(NodeType& base, int qtot, int variant)
     {
       vm::PMesh M; vm::extract_mesh(M, *base.get_mesh(), qtot);
       vm::Rep r; vm::TopoInfo ti; vm::check_topology(M, r, "base", &ti);
-      BoundaryFactory<MeshType> bf(*base.get_mesh());
-      base.add_mesh_part("bnd", bf.make_unique());
-      std::vector<Index> top;
-      for(Index f = 0; f < M.n[dim - 1]; ++f) if(((Index(variant) + f) % 3) != 1) top.push_back(f);
-      if(top.empty()) top.push_back(0);
-      vm::PartSpec ps = vm::topo_part(M, ti, top, dim - 1, variant, "topo");
-      base.add_mesh_part("topo", vm::build_part<MeshType>(ps, M, qtot));
+      std::vector<std::pair<std::string, std::unique_ptr<PartType>>> parts;
+      auto zone = [&](Index first, Index step) {
+        vm::PartSpec ps; for(Index i = first; i < M.n[dim]; i += step) ps.trg[dim].push_back(i);
+        if(ps.trg[dim].empty()) ps.trg[dim].push_back(0);
+        vm::close_part(M, ps); return vm::build_part<MeshType>(ps, M, qtot); };
+      auto pin = [&](std::vector<Index> v) { vm::PartSpec ps; for(Index x : v) ps.trg[0].push_back(x % M.n[0]); return vm::build_part<MeshType>(ps, M, qtot); };
+      auto edges = [&](Index first, Index step) { vm::PartSpec ps; for(Index i = first; i < M.n[1]; i += step) ps.trg[1].push_back(i); return vm::build_part<MeshType>(ps, M, qtot); };
+      parts.emplace_back("zone", zone(0, 2));
+      parts.emplace_back("pin", pin({0}));                       // one corner vertex: does not touch every patch
+      {
+        BoundaryFactory<MeshType> bf(*base.get_mesh());
+        parts.emplace_back("bnd", bf.make_unique());
+      }
+      parts.emplace_back("edges", edges(Index(variant % 2), 2));  // edges only, no vertices
+      parts.emplace_back("pin2", pin({M.n[0] - 1, M.n[0] / 2}));
+      parts.emplace_back("zoneall", zone(0, 1));
+      parts.emplace_back("edges2", edges(0, 3));
+      {
+        std::vector<Index> top;
+        for(Index f = 0; f < M.n[dim - 1]; ++f) if(((Index(variant) + f) % 3) != 1) top.push_back(f);
+        if(top.empty()) top.push_back(0);
+        vm::PartSpec ps = vm::topo_part(M, ti, top, dim - 1, variant, "topo");
+        parts.emplace_back("topo", vm::build_part<MeshType>(ps, M, qtot));
+      }
+      parts.emplace_back("pin3", pin({M.n[0] / 3}));
+      const size_t np = parts.size();
+      const bool rev = ((variant / int(np)) & 1) != 0;
+      for(size_t i = 0; i < np; ++i)
+      {
+        size_t pos = (i + size_t(variant)) % np; if(rev) pos = np - 1 - pos;
+        base.add_mesh_part(std::string(1, char('a' + pos)) + "_" + parts[i].first, std::move(parts[i].second));
+      }
     }
 
     static void collect_comm(Leaf& L, const std::vector<int>& comm)
@@ -334,6 +363,60 @@ namespace
       return ok;
     }
 
+    /// extract_patch(elements, true, split_halos=true, false) on a parent patch: every halo of the parent restricted to the
+    /// child must be exactly the halo entities lying in the child (all dimensions, empty ones included); the mesh parts too
+    static bool check_split_halos(verif::Ctx& c, const NodeType& parent, const std::vector<int>& a2, int ch, int qtot)
+    {
+      vm::Rep r; r.ctx = "extract_patch(elements,true,split_halos=true,false) child " + vm::str(ch);
+      std::unique_ptr<NodeType> pc = parent.clone_unique();
+      pc->clear_patches();
+      vm::PMesh PM; std::string err;
+      if(!vm::extract_mesh(PM, *pc->get_mesh(), qtot, &err)) { c.fail("overload.lattice", err); return false; }
+      std::vector<Index> el; for(size_t i = 0; i < a2.size(); ++i) if(a2[i] == ch) el.push_back(Index(i));
+      // child closure in parent indices
+      std::set<Index> inchild[4];
+      for(Index e : el) { inchild[dim].insert(e); for(int d = 0; d < dim; ++d) for(int j = 0; j < PM.cnt(dim, d); ++j) inchild[d].insert(PM.tup(dim, d, e)[j]); }
+      // every parent halo must touch the child, otherwise add_halo(nullptr) aborts (latent defect, flag unused in the repo)
+      std::map<int, vm::PPart> PH;
+      for(const auto& h : pc->get_halo_map())
+      {
+        vm::PPart H; vm::extract_part(H, *h.second);
+        bool touch = false; for(int d = 0; d <= dim; ++d) for(Index x : H.trg[d]) if(inchild[d].count(x)) touch = true;
+        if(!touch) { c.excluded("extract_patch(elements,..,split_halos=true) with a halo that does not touch the new patch (XASSERT in add_halo; flag unused in the repository)"); return true; }
+        PH[h.first] = H;
+      }
+      std::map<std::string, vm::PPart> PP;
+      for(const auto& nm : pc->get_mesh_part_names()) { const PartType* q = pc->find_mesh_part(nm); if(q) { vm::PPart x; vm::extract_part(x, *q); PP[nm] = x; } }
+      std::unique_ptr<NodeType> alt = pc->extract_patch(std::move(el), true, true, false);
+      vm::PMesh A;
+      if(!vm::extract_mesh(A, *alt->get_mesh(), qtot, &err)) { c.fail("overload.lattice", err); return false; }
+      std::map<GKey, Index> pent[4];
+      for(int d = 0; d <= dim; ++d) for(Index e = 0; e < PM.n[d]; ++e) pent[d].emplace(gkey(PM, d, e), e);
+      auto restricted = [&](const vm::PPart& whole, const PartType* split, const std::string& what)
+      {
+        vm::PPart S; if(split) vm::extract_part(S, *split);
+        for(int d = 0; d <= dim; ++d)
+        {
+          std::map<Index, long> want, have;
+          for(Index x : whole.trg[d]) if(inchild[d].count(x)) want[x] += 1;
+          if(split) for(Index x : S.trg[d])
+          {
+            if(x >= A.n[d]) { r.fail("overload.split.bound", what + ": target out of range (dim " + vm::str(d) + ")"); continue; }
+            auto it = pent[d].find(gkey(A, d, x));
+            if(it == pent[d].end()) { r.fail("overload.split.foreign", what + ": entity not in the parent mesh"); continue; }
+            have[it->second] += 1;
+          }
+          if(want != have) r.fail("overload.split.dim" + vm::str(d), what + ": restricted part lists " + vm::str(have.size()) + " distinct entities of dim " + vm::str(d) + ", the original has " + vm::str(want.size()) + " inside the new patch");
+        }
+      };
+      for(auto& h : PH) restricted(h.second, alt->get_halo(h.first), "halo towards " + vm::str(h.first));
+      for(auto& q : PP) restricted(q.second, alt->find_mesh_part(q.first), "part '" + q.first + "'");
+      c.count("split_halo_overload_checked");
+      const bool ok = r.ok();
+      flush(c, r);
+      return ok;
+    }
+
     /// one partition given as elements-at-rank graph: extract every patch, check, refine jointly, check again
     static void run_partition(verif::Ctx& c, std::unique_ptr<NodeType> base, const Adjacency::Graph& graph, int depth, int qtot)
     {
@@ -357,6 +440,10 @@ namespace
         if(!check_level(c, *base, leaves, qtot, "level " + vm::str(lvl), true)) return;
         c.count("levels_checked");
         if(lvl == 0 && !check_vector_overload(c, *base, graph, leaves, qtot)) return;
+        // every patch re-extracted as a whole through the vector overload with split_halos=true: all its halos
+        // (ascending neighbour rank: edge halos followed by single-vertex halos and vice versa) and parts must survive unchanged
+        if(lvl == 0) for(Leaf& L : leaves)
+          if(!check_split_halos(c, *L.node, std::vector<int>(size_t(L.pm.n[dim]), 0), 0, qtot)) return;
       }
       c.outcome("ok ranks=" + vm::str(p));
     }
@@ -429,6 +516,9 @@ namespace
           }
         }
       }
+      // vector overload with split_halos=true on a fresh clone of the parent: parent halos restricted to the child
+      for(int p = 0; p < P; ++p) for(int ch = 0; ch < K[size_t(p)]; ++ch)
+        if(!check_split_halos(c, *par[size_t(p)], a2[size_t(p)], ch, qtot)) return;
       for(int lvl = 0; lvl <= depth; ++lvl)
       {
         if(lvl > 0)
@@ -462,7 +552,7 @@ namespace
     static std::unique_ptr<NodeType> make_base(const vm::MeshSpec& ms, int qtot, int part_variant)
     {
       std::unique_ptr<NodeType> base = NodeType::make_unique(vm::build_mesh<MeshType>(ms, true));
-      if(part_variant >= 0) attach_base_parts(*base, qtot, part_variant);
+      if(part_variant >= 0 && !std::getenv("TMP_NO_PARTS")) attach_base_parts(*base, qtot, part_variant);
       return base;
     }
   };
@@ -524,7 +614,7 @@ namespace
         if(!c.want()) continue;
         c.desc([&]{ return what + " " + vm::spec_str(ms) + " ranks=" + std::to_string(p) + " cell->rank=" + assign_str(a) + " depth=" + std::to_string(depth); });
         const int qtot = 3 * depth;
-        auto base = X::make_base(ms, qtot, int(code % 7));
+        auto base = X::make_base(ms, qtot, int(code % 18));
         Adjacency::Graph g = make_graph(a, p, (code % 3) == 2);
         X::run_partition(c, std::move(base), g, depth, qtot);
         c.nontrivial(verif::Hash().pod(ms.simplex).pod(ms.dim).str(ms.name).pod(ms.cells.size()).pod(p).str(assign_str(a)).pod(depth).get());
@@ -567,7 +657,7 @@ namespace
               for(size_t i = 0; i < b1.size(); ++i) b1[i] = g1[i / gsize];
               c.desc([&]{ return "two-level " + vm::spec_str(ms) + " cell->parent=" + assign_str(a1) + " parent-refinements=" + std::to_string(pref) + " children0=" + assign_str(b0) + " children1=" + assign_str(b1) + " depth=" + std::to_string(depth); });
               const int qtot = 3 * (depth + pref);
-              auto base = X::make_base(ms, qtot, 1);
+              auto base = X::make_base(ms, qtot, int((c.index() * 7 + 1) % 18));
               X::run_two_level(c, std::move(base), a1, P, {b0, b1}, {k0, k1}, pref, depth, qtot);
               c.nontrivial(verif::Hash().pod(ms.simplex).pod(ms.dim).str(ms.name).str(assign_str(a1)).pod(pref).str(assign_str(b0)).str(assign_str(b1)).get());
             } while(next_assign(g1, k1));
